@@ -115,8 +115,8 @@ def build_cases(ctx: lib.Ctx, prop: str):
         c['stream'] = 'known-class'
         cases.append(c)
     sweep = G.instr_sweep(ctx.rng, ctx.thorough)
-    if not ctx.thorough:   # the quick tier runs a seeded 40% sample of the sweep plus the cases marked `must`
-        sweep = [c for c in sweep if c.get('must') or ctx.rng.random() < 0.4]
+    if not ctx.thorough:   # the quick tier runs a seeded 33% sample of the sweep plus the cases marked `must`
+        sweep = [c for c in sweep if c.get('must') or ctx.rng.random() < 0.33]
     cases.extend(sweep)
     n = ctx.n(520, 14000)
     max_size = ctx.n(12, 40)
